@@ -38,6 +38,21 @@ CHECKS["C13"] = dict(
     technique="TLA+ spec + TLC; spec->impl replay of every transition; impl->spec trace validation of all generated accessors and random operation sequences",
 )
 
+CHECKS["C08"] = dict(
+    category="model_checking",
+    text="spec/GenTree.tla (generator process over a tree of generated paths, 7 path classes x 5 content states, kills and reruns) is model checked on a 13-path universe for every start tree with <= 3 (quick) / <= 5 (thorough) perturbed paths and <= 2 kills: Idempotent, Converges, NoForeignRemoval, NoIdleWrite, Progress. The real generator, rebuilt from /repo, is run on scratch copies from the pristine tree (twice), from TLC's single-file start states mapped to concrete files, and killed at mutation numbers drawn from every stage (plain and half-written) then rerun; each file-operation trace (5.6-16k events) is accepted by TraceGenTree.tla and each final tree equals /repo byte for byte. The hash-seed/thread-timing clause is plain repetition (3 / 20 pristine processes), not a model-checking result.",
+    design_ref="DESIGN.md section 5 C08, notes/C08.md",
+    note="Trusted: the path abstraction in tools/checks/c08.py (directory/name -> class), hook H2 reporting every file operation of file_utils, the byte comparison against /repo's working tree minus the 7 blobs the sandbox emptied, TLC. Kills are injected before / half way through mutating operations only. base_printer outputs (need an external database) are not exercised. States that destroy hand-written text are outside the quantifier.",
+    technique="TLA+ spec model-checked with TLC; recorded generator file-operation traces validated against the spec with TLC; TLC-chosen start states and kill points replayed into the real generator",
+)
+CHECKS["C09"] = dict(
+    category="model_checking",
+    text="The exact extremes of every container over its whole conditional structure are computed by the interval abstraction of the wire specification (spec/WowmWire.tla SizeFrom: every controlling enumerator, every subset of entangled flag bits) and compared by TLC (spec/MCSizes.tla) with minimum_size / maximum_size / constant_sized of the REGENERATED intermediate representation and with the guard literal compiled into each generated read_inner, for all ~2,700 (container, context) pairs; additionally every behaviour of the wire model must lie inside the declared bounds. Exhaustive per container; the maximum clause applies where the definition's maximum is finite.",
+    design_ref="DESIGN.md section 5 C09",
+    note="Trusted: tools/regen.py (generator run on a scratch copy), positional pairing of IR objects / generated files with source objects, the interval reading of the built-in types (WowmWire BuiltinIV), TLC. Unbounded types (CString without maximum_length, endless arrays) have no finite true maximum: the generator's policy caps for them are not judged.",
+    technique="TLA+ interval abstraction evaluated by TLC as an invariant over the regenerated IR and decoder guards; wire-model behaviours checked against the declared bounds",
+)
+
 NOT_YET = {}
 
 def main():
@@ -84,7 +99,7 @@ def main():
         json.dump(m, f, indent=1)
         f.write("\n")
 
-HOOK_COMMITS = []
+HOOK_COMMITS = ['d49e39f77', 'd6d18dd1b']
 
 if __name__ == "__main__":
     main()
